@@ -81,16 +81,23 @@ class SandboxCoverageTracer(SandboxBasicTracer):
         # Restore the get_python_source reader
         #coverage.python.get_python_source = self.original
         # Actually analyze the data, attach some data
-        analysis = self.coverage._analyze(self.filename)
-        #print(vars(self.coverage._analyze(self.filename)), file=_stdout)
-        self.n_missing = analysis.numbers.n_missing
-        self.n_statements = analysis.numbers.n_statements
-        self.pc_covered = analysis.numbers.pc_covered
-        self.missing = analysis.missing
-        self.lines = analysis.statements - analysis.missing
-
-        self.p.stop()
-        self.original = None
+        try:
+            analysis = self.coverage._analyze(self.filename)
+        except coverage.exceptions.CoverageException:
+            # coverage.py could not make sense of a source that CPython ran
+            # (e.g., unusual line endings); that is no failure of the
+            # student's program, so leave the measurements empty.
+            pass
+        else:
+            #print(vars(self.coverage._analyze(self.filename)), file=_stdout)
+            self.n_missing = analysis.numbers.n_missing
+            self.n_statements = analysis.numbers.n_statements
+            self.pc_covered = analysis.numbers.pc_covered
+            self.missing = analysis.missing
+            self.lines = analysis.statements - analysis.missing
+        finally:
+            self.p.stop()
+            self.original = None
 
     
     @property
